@@ -14,7 +14,7 @@ theorem RunOK.rmJ {cfg : Cfg} {s : St} {d : Disk} (h : RunOK cfg s d) (j' : Job)
   · show Holds (lookup (d.journals.erase n) s.jcur) _
     rw [lookup_erase, if_neg (fun e => hn e.symm)]
     exact r3
-  · exact fun p hp => r4 p (mem_erase.1 hp).1
+  · exact ⟨r4.1, fun p hp => r4.2 p (mem_erase.1 hp).1⟩
   · exact fun p hp => r5.1 p (mem_erase.1 hp).1
   · rcases frozenOK_iff.1 r7 with ⟨h1, h2⟩ | ⟨fz, jf, h1, h2, f1, f2, f3, f4, f5, f6⟩
     · exact frozenOK_iff.2 (Or.inl ⟨h1, h2⟩)
